@@ -1641,7 +1641,15 @@ def rebuild_net(case):
 def run(ctx):
     logging.disable(logging.CRITICAL)
     rng = ctx.rng
+    # second tie: re-translate / template-match the band and selection code of /repo's source; the equivalence lemmas of
+    # Proofs/ChannelsGen.v are then re-checked by check_props against what the code says now
+    from . import pygen_c07
+    gen_ok, gen_msg = pygen_c07.regenerate()
     ctx.proof = common.check_props('C07')
+    if not gen_ok:
+        ctx.proof['ok'] = False
+        ctx.proof['log'] = 'harness/pygen_c07.py: ' + gen_msg + '\n' + ctx.proof.get('log', '')
+        ctx.proof['failed_file'] = 'theories/Gen/ChannelsGen.v (translation of /repo source failed)'
     ctx.rule = ('function level: random carrier lists (1-36 carriers, mixed baud / slot, slot edges on band edges '
                 '+-{0,1,2 Hz}, channels in gaps and outside, touching neighbours, random order) and random band sets '
                 '(1-3 bands, touching / overlapping / degenerate; amplifier lists with duplicates, missing bounds, '
@@ -1794,6 +1802,11 @@ def run(ctx):
         'tx_power, delta_pdb_per_channel, roll_off); tx_osnr is unique per launched carrier',
         'numpy.argsort is treated as a stable sort; equal frequencies are only generated with positive slot widths '
         '(rejected in any order)',
-        'find_common_range is modelled with default_design_bands=None (the way request.find_elements_common_range calls it)',
+        'translator tie: harness/pygen_c07.py (fail-closed Python-ast -> Gallina for is_in_band, the overlap / exceed tests of '
+        'SpectralInformation.__init__, the `any(select)` test of demuxed_spectral_information, the band intersection of '
+        'find_common_range, calculate_spacing, get_spacing_from_band, automatic_nch, the grid frequency; template match of the '
+        'numpy plumbing: [indices] / [select] / append(self.X, other.X) on every constructor array, mux, filter_si, '
+        'find_elements_common_range, carriers_to_spectral_information, Edfa / Multiband_amplifier __call__, the params.bands '
+        'assignment of network.set_egress_amplifier) is trusted to read the source faithfully',
     ]
     return common.finish(ctx, {})
